@@ -37,6 +37,21 @@ fn esc(s: &str) -> String
     o
 }
 
+fn unhex(s: &str) -> String
+{
+    let b = s.as_bytes();
+    let mut out = Vec::with_capacity(b.len() / 2);
+    let mut i = 0;
+    while i + 1 < b.len()
+    {
+        let h = (b[i] as char).to_digit(16).unwrap_or(0) as u8;
+        let l = (b[i + 1] as char).to_digit(16).unwrap_or(0) as u8;
+        out.push(h * 16 + l);
+        i += 2;
+    }
+    String::from_utf8_lossy(&out).into_owned()
+}
+
 fn handle(req: &serde_yaml::Value) -> String
 {
     let op = req["op"].as_str().unwrap_or("");
@@ -44,7 +59,8 @@ fn handle(req: &serde_yaml::Value) -> String
     {
         "find" =>
         {
-            let code = req["code"].as_str().unwrap_or("");
+            let code_owned = unhex(req["code_hex"].as_str().unwrap_or(""));
+            let code = code_owned.as_str();
             let structured = req["structured"].as_bool().unwrap_or(false);
             let mut macros = Vec::new();
             if let Some(ms) = req["macros"].as_sequence()
@@ -94,7 +110,8 @@ fn handle(req: &serde_yaml::Value) -> String
         },
         "extract" =>
         {
-            let text = req["text"].as_str().unwrap_or("");
+            let text_owned = unhex(req["text_hex"].as_str().unwrap_or(""));
+            let text = text_owned.as_str();
             match parser::LogRefEntry::extract_reference(text)
             {
                 Some(r) => format!("{{\"reference\":{}}}", r),
